@@ -170,6 +170,13 @@ func callGraphJSON(ast *syntax.Ast) string {
 	if err != nil {
 		return "ERR:" + err.Error()
 	}
+	// The order of "retained" reference lists is not stable between two
+	// resolutions of the same program (that is C10's subject): compare
+	// them as sets here.
+	var v interface{}
+	if json.Unmarshal(b, &v) == nil {
+		b, _ = json.Marshal(sortRefLists(v))
+	}
 	// source locations embedded in messages are not part of the meaning
 	t := locRe.ReplaceAllString(string(b), "")
 	return strings.ReplaceAll(strings.ReplaceAll(t, "\\n", ""), " ", "")
@@ -488,4 +495,49 @@ func init() {
 		c.Set("programs_compiled_and_compared", compiled)
 		c.Set("comments_tracked", nc)
 	})
+}
+
+func sortRefLists(v interface{}) interface{} {
+	switch a := v.(type) {
+	case []interface{}:
+		allRefs := len(a) > 1
+		for i, x := range a {
+			a[i] = sortRefLists(x)
+			if m, ok := a[i].(map[string]interface{}); !ok || m["__reference__"] == nil {
+				allRefs = false
+			}
+		}
+		if allRefs {
+			keys := make([]string, len(a))
+			for i, x := range a {
+				b, _ := json.Marshal(x)
+				keys[i] = string(b)
+			}
+			idx := make([]int, len(a))
+			for i := range idx {
+				idx[i] = i
+			}
+			sortInts(idx, func(i, j int) bool { return keys[i] < keys[j] })
+			out := make([]interface{}, len(a))
+			for i, k := range idx {
+				out[i] = a[k]
+			}
+			return out
+		}
+		return a
+	case map[string]interface{}:
+		for k, x := range a {
+			a[k] = sortRefLists(x)
+		}
+		return a
+	}
+	return v
+}
+
+func sortInts(idx []int, less func(i, j int) bool) {
+	for i := 1; i < len(idx); i++ {
+		for j := i; j > 0 && less(idx[j], idx[j-1]); j-- {
+			idx[j], idx[j-1] = idx[j-1], idx[j]
+		}
+	}
 }
